@@ -425,8 +425,10 @@ def _np_post(c, v0, v1, r):
         d['within_the_control_temperatures'] = c.Forall(0, n, plain)
         return d
     from pyvc.core import View
-    loc = View(c, c.raw['state'].env, c.raw['state'].heap)
-    w, core = loc.wsize, loc.TP_smooth
+    loc = View(c, c.raw['state'].env, c.raw['state'].heap, c.raw['state'].trace)
+    # the smoothing call named through its ghost witness (window argument, result), not through local variables
+    cenv, cret = loc.ghost('call:movingaverage')[0]
+    w, core = cenv['n'], loc.wrap(cret)
     R = c.last_interp
     Rk = lambda k: R.elem((k,))
     lem_R = c.ForallH(0, n, lambda k: c.And(lo <= Rk(k), Rk(k) <= hi))
